@@ -16,6 +16,16 @@
 //!    `cursor_seek(k)` (+ tail) for every alphabet key, backward scan from `cursor_last`,
 //!    `get(k)` for every alphabet key.
 //!  * C29: a walker over RAW page bytes (documented layout only, no TurDB accessors).
+//!
+//! Signatures: `<ID>/<oracle>/<pattern>/<expected>><observed>`.  For divergences the pattern
+//! is the last call relative to the model (`update-grow`, `insert-dup`, ...), `!<error class>`
+//! when it returned Err, `+el` when the history passed through a state with an emptied
+//! non-root leaf.  For persistent conditions of a state (cursor oracles, frag accounting) the
+//! pattern is the structural condition (`single-leaf`, `multi-leaf`, `emptied-leaf`).
+//!
+//! Options (`--opt`): `seed=<name>`, `pass=<A..E>`, `alpha=<k5s2|k8s3>`, `bump=<+-n>` (depth),
+//! `plant=1` (self-test: the MODEL drops the successor key on delete; must yield a VIOLATION),
+//! `timing=<file>`, `dl=<seconds>` (development aids).
 use std::collections::{BTreeMap, HashMap, HashSet};
 use std::hash::{BuildHasherDefault, Hasher};
 use std::path::PathBuf;
